@@ -185,6 +185,9 @@ class File(Component):
             self._close()
 
     def write(self, data):
+        if self._fd is not None and self.closed:
+            # late write to a file that has been closed: keep nothing for it
+            return
         # (not open yet: the payload waits in the buffer, _on_open() asks
         # for the descriptor to be watched)
         if self._poller is not None and self._fd is not None and not self._poller.isWriting(self._fd):
